@@ -30,7 +30,10 @@ CONSTANTS Lens,      \* bundle lengths a user may queue
           AllowTerm, \* set of ends whose user may call terminate()
           AllowClose,\* set of ends whose user may call close()
           AllowPop,  \* BOOLEAN: users pop received bundles
-          Dev        \* set of deviation names enabled
+          Dev,       \* set of deviation names enabled
+          Adv,       \* set of ends played by an adversary instead of the implementation ({} normally)
+          AdvMoves,  \* set of message records the adversary may put on its wire
+          MaxAdv     \* number of adversarial messages
 
 VARIABLES ph,        \* [Ends -> [open, started, inConn, inSess, inTerm, gotTerm]]
           txQ,       \* [Ends -> Seq([id, len])]   _tx_pend_start
@@ -45,17 +48,18 @@ VARIABLES ph,        \* [Ends -> [open, started, inConn, inSess, inTerm, gotTerm
           pq, txp,   \* [Ends -> BOOLEAN]          pending _process_queue / TX pump sources
           cw,        \* [Ends -> BOOLEAN]          close wanted once the socket buffer has drained (intended design)
           nDeliv,    \* [Ends -> Nat] messages of the peer's wire read by e
+          nAdv, advAcked, rxStuck,  \* adversary budget used / victim segments it has acknowledged / wedged receiver
           pend,      \* Seq(event): observable sub-events of the callback in progress
           allOk      \* every enforced clause held so far
 
-mvars == <<ph, txQ, txCur, txAck, txMap, nextId, nSent, rxCur, rxMap, buf, cbuf, segSize, pq, txp, cw, nDeliv, pend, allOk>>
+mvars == <<ph, txQ, txCur, txAck, txMap, nextId, nSent, rxCur, rxMap, buf, cbuf, segSize, pq, txp, cw, nDeliv, nAdv, advAcked, rxStuck, pend, allOk>>
 vars == <<ovars, mvars>>
 
 ----------------------------------------------------------------------------
 (* messages: the same uniform record the trace projection produces *)
 Base(t, size) == [t |-> t, flags |-> 0, id |-> 0, len |-> 0, reason |-> 0, ka |-> 0, mru |-> 0, mrucls |-> "na",
                   xmrucls |-> "na", total |-> NONE, nid |-> "", size |-> size, rej |-> 0, ver |-> 0,
-                  magicok |-> TRUE, nexts |-> 0, typ |-> 0]
+                  magicok |-> TRUE, nexts |-> 0, typ |-> 0, tok |-> NONE]
 MCh == [Base("CH", 6) EXCEPT !.ver = 4]
 MInit(e) == [Base("INIT", 31) EXCEPT !.mru = SegMru[e], !.mrucls = "u8", !.xmrucls = "u64", !.nid = e]
 MSeg(id, len, start, end, total) ==
@@ -74,6 +78,8 @@ SetToSortedSeq(S) == \* ids are small naturals: order them
       F(T) == IF T = {} THEN <<>> ELSE LET x == CHOOSE y \in T : \A z \in T : y <= z IN <<x>> \o F(T \ {x})
   IN F(S)
 
+SetToSortedSeqS(S) == IF S = {"A", "P"} THEN <<"A", "P">> ELSE IF S = {"A"} THEN <<"A">> ELSE IF S = {"P"} THEN <<"P">> ELSE <<>>
+
 (* sub-event constructors *)
 NoSig == [sigt |-> <<>>, tags |-> <<>>, nargs |-> 3]
 EvWire(e, m) == [a |-> "Wire", e |-> e, n |-> m.t, m |-> m, t |-> 0]
@@ -85,7 +91,7 @@ EvSig(e, name, bid, len, result) ==
 EvUserSend(e, id, len) == [a |-> "UserSend", e |-> e, n |-> "", i |-> [id |-> id, len |-> len], t |-> 0]
 EvUserTerm(e) == [a |-> "UserTerm", e |-> e, n |-> "", i |-> [ok |-> TRUE], t |-> 0]
 EvUserClose(e) == [a |-> "UserClose", e |-> e, n |-> "", t |-> 0]
-EvUserPop(e, id) == [a |-> "UserPop", e |-> e, n |-> "", i |-> [id |-> id, len |-> 0, same |-> TRUE], t |-> 0]
+EvUserPop(e, id) == [a |-> "UserPop", e |-> e, n |-> "", i |-> [id |-> id, len |-> 0, same |-> TRUE, runs |-> <<>>], t |-> 0]
 EvClosed(e) == [a |-> "Closed", e |-> e, n |-> "", t |-> 0]
 
 ----------------------------------------------------------------------------
@@ -148,10 +154,10 @@ Idle == pend = <<>>
 (* callbacks *)
 
 Start(e) ==
-  /\ Idle /\ ~ph[e].started /\ ph[e].open
+  /\ Idle /\ ~ph[e].started /\ ph[e].open /\ e \notin Adv
   /\ LET s0 == [EndState(e) EXCEPT !.started = TRUE]
          s1 == IF e = "A" THEN Enc(s0, MCh) ELSE s0
-     IN Commit(e, s1) /\ UNCHANGED nDeliv
+     IN Commit(e, s1) /\ UNCHANGED <<nDeliv, nAdv, advAcked, rxStuck>>
 
 \* send_bundle_data -> _add_queue_item
 UserSend(e, len) ==
@@ -160,23 +166,23 @@ UserSend(e, len) ==
          id == s0.nextId
          s1 == [s0 EXCEPT !.nextId = id + 1, !.nSent = @ + 1, !.txQ = Append(@, [id |-> id, len |-> len]),
                           !.txMap = @ \cup {id}, !.pq = TRUE]
-     IN Commit(e, Ev(s1, EvUserSend(e, id, len))) /\ UNCHANGED nDeliv
+     IN Commit(e, Ev(s1, EvUserSend(e, id, len))) /\ UNCHANGED <<nDeliv, nAdv, advAcked, rxStuck>>
 
 \* terminate(): outside a session, or twice, the call raises and changes nothing
 UserTerminate(e) ==
   /\ Idle /\ e \in AllowTerm /\ ph[e].open /\ ph[e].inSess /\ ~ph[e].inTerm
   /\ LET s1 == Ev(SendTerm(EndState(e), FALSE, 0), EvUserTerm(e))
-     IN Commit(e, s1) /\ UNCHANGED nDeliv
+     IN Commit(e, s1) /\ UNCHANGED <<nDeliv, nAdv, advAcked, rxStuck>>
 
 UserClose(e) ==
   /\ Idle /\ e \in AllowClose /\ ph[e].open /\ ph[e].started
-  /\ Commit(e, Close(Ev(EndState(e), EvUserClose(e)), e)) /\ UNCHANGED nDeliv
+  /\ Commit(e, Close(Ev(EndState(e), EvUserClose(e)), e)) /\ UNCHANGED <<nDeliv, nAdv, advAcked, rxStuck>>
 
 UserPop(e) ==
   /\ Idle /\ AllowPop /\ rxMap[e] # {}
   /\ LET id == CHOOSE x \in rxMap[e] : \A y \in rxMap[e] : x <= y
          s0 == EndState(e)
-     IN Commit(e, Ev([s0 EXCEPT !.rxMap = @ \ {id}], EvUserPop(e, id))) /\ UNCHANGED nDeliv
+     IN Commit(e, Ev([s0 EXCEPT !.rxMap = @ \ {id}], EvUserPop(e, id))) /\ UNCHANGED <<nDeliv, nAdv, advAcked, rxStuck>>
 
 \* _process_queue
 ProcessQueue(e) ==
@@ -216,7 +222,7 @@ ProcessQueue(e) ==
               s2 == Enc([s1 EXCEPT !.txCur.sent = sent], m)
               s3 == IF isEnd THEN [s2 EXCEPT !.txAck = @ \cup {cur.id}, !.txCur = NoCur, !.pq = TRUE] ELSE s2
           IN Commit(e, s3)
-  /\ UNCHANGED nDeliv
+  /\ UNCHANGED <<nDeliv, nAdv, advAcked, rxStuck>>
 
 \* _tx_proxy: refill the connection buffer from the message buffer (up to CHUNK_SIZE: everything, here),
 \* then the socket accepts k messages.  send_raw() -> send_buffer_decreased() re-triggers the queue.
@@ -234,26 +240,33 @@ TxPump(e, q) ==
          \* intended design re-checks for close once the socket buffer has drained
          s3 == IF s2.cw /\ s2.cbuf = <<>> THEN CheckSessTerm([s2 EXCEPT !.cw = FALSE], e) ELSE s2
      IN Commit(e, s3)
-  /\ UNCHANGED nDeliv
+  /\ UNCHANGED <<nDeliv, nAdv, advAcked, rxStuck>>
 
 \* recv_message for one message m (already removed from the receive buffer)
+TypeCode(m) == CASE m.t = "SEG" -> 1 [] m.t = "ACK" -> 2 [] m.t = "REFUSE" -> 3 [] m.t = "KA" -> 4
+                 [] m.t = "TERM" -> 5 [] m.t = "REJECT" -> 6 [] m.t = "INIT" -> 7 [] OTHER -> 0
+RECURSIVE FlushQ(_, _)
+FlushQ(x, e) == IF x.txQ = <<>> THEN x
+                ELSE FlushQ(Ev([x EXCEPT !.txQ = Tail(@), !.txMap = @ \ {Head(x.txQ).id}],
+                               EvSig(e, "send_bundle_finished", Head(x.txQ).id, Head(x.txQ).len, "session terminating")), e)
 OnMessage(s, e, m) ==
   LET p == Peer(e) IN
-  CASE m.t = "CH" ->
-         LET s1 == IF e = "P" THEN Enc(s, MCh) ELSE s
-             s2 == [s1 EXCEPT !.inConn = TRUE]
-         IN IF e = "A" THEN Enc(s2, MInit(e)) ELSE s2
-    [] m.t = "INIT" ->
+  IF ~s.inConn THEN
+     \* whatever arrives first is read as the contact header
+     IF m.t = "CH" /\ m.magicok /\ m.ver = 4
+     THEN LET s1 == IF e = "P" THEN Enc(s, MCh) ELSE s
+              s2 == [s1 EXCEPT !.inConn = TRUE]
+          IN IF e = "A" THEN Enc(s2, MInit(e)) ELSE s2
+     ELSE Close(s, e)
+  ELSE
+  CASE m.t = "INIT" ->
          LET s1 == IF e = "P" THEN Enc(s, MInit(e)) ELSE s
          IN [s1 EXCEPT !.inSess = TRUE, !.segSize = Min(SegInit[e], m.mru)]
+    [] m.t \in {"SEG", "ACK", "REFUSE", "TERM"} /\ ~s.inSess -> Enc(s, MReject(TypeCode(m), 3))
     [] m.t = "TERM" ->
          LET s0 == [s EXCEPT !.gotTerm = TRUE]
              s1 == IF ~s0.inTerm THEN SendTerm(s0, TRUE, m.reason) ELSE s0
-             RECURSIVE Flush(_)
-             Flush(x) == IF x.txQ = <<>> THEN x
-                         ELSE Flush(Ev([x EXCEPT !.txQ = Tail(@), !.txMap = @ \ {Head(x.txQ).id}],
-                                       EvSig(e, "send_bundle_finished", Head(x.txQ).id, Head(x.txQ).len, "session terminating")))
-         IN CheckSessTerm(Flush(s1), e)
+         IN CheckSessTerm(FlushQ(s1, e), e)
     [] m.t = "SEG" ->
          LET start == HasStart(m.flags)
              okseg == start \/ s.rxCur.id = m.id
@@ -266,27 +279,60 @@ OnMessage(s, e, m) ==
                                        EvSig(e, "recv_bundle_finished", m.id, got, "success")), e)
                  ELSE [s1 EXCEPT !.rxCur = [id |-> m.id, got |-> got]]
     [] m.t = "ACK" ->
-         IF HasEnd(m.flags)
+         IF m.id \notin s.txMap THEN Enc(s, MReject(2, 3))
+         ELSE IF HasEnd(m.flags)
          THEN CheckSessTerm(Ev([s EXCEPT !.txAck = @ \ {m.id}, !.txMap = @ \ {m.id}],
                                EvSig(e, "send_bundle_finished", m.id, m.len, "success")), e)
          ELSE s
-    [] OTHER -> s
+    [] m.t = "REFUSE" ->
+         IF m.id \notin s.txMap THEN Enc(s, MReject(3, 3))
+         ELSE LET s1 == Ev([s EXCEPT !.txAck = @ \ {m.id}, !.txMap = @ \ {m.id},
+                                     !.txQ = SelectSeq(@, LAMBDA it : it.id # m.id)],
+                           EvSig(e, "send_bundle_finished", m.id, 0, "refused"))
+                  s2 == IF s1.txCur.id = m.id THEN [s1 EXCEPT !.txCur = NoCur, !.pq = TRUE] ELSE s1
+              IN CheckSessTerm(s2, e)
+    [] OTHER -> s    \* KEEPALIVE, MSG_REJECT: nothing to do at this level
 
-\* _rx_proxy -> recv_raw: one complete message arrives and is handled
+\* _rx_proxy -> recv_raw: one complete message arrives and is handled.  A message of unknown type (this
+\* includes a second contact header) cannot be framed: intended design = MSG_REJECT(unknown) and closure;
+\* deviation of the code = it waits for ever for "the rest" and handles nothing after it.
 NetRecv(e) ==
   LET p == Peer(e) IN
-  /\ Idle /\ ph[e].open /\ ph[e].started /\ nDeliv[e] < Len(wire[p])
+  /\ Idle /\ ph[e].open /\ ph[e].started /\ nDeliv[e] < Len(wire[p]) /\ ~rxStuck[e]
   /\ LET m == wire[p][nDeliv[e] + 1]
-         s0 == Ev(Ev(EndState(e), EvRx(e, m.size)), EvHandle(e, m, nDeliv[e] + 1, hCum[e] + m.size))
-     IN Commit(e, OnMessage(s0, e, m))
+         unknown == ph[e].inConn /\ m.t \in {"UNKNOWN", "CH"}
+         s0 == Ev(EndState(e), EvRx(e, m.size))
+     IN IF unknown
+        THEN /\ rxStuck' = [rxStuck EXCEPT ![e] = TRUE]
+             /\ IF "unknown_type_wedges" \in Dev THEN Commit(e, s0)
+                ELSE Commit(e, Close(Enc(s0, MReject(m.typ, 1)), e))
+        ELSE /\ Commit(e, OnMessage(Ev(s0, EvHandle(e, m, nDeliv[e] + 1, hCum[e] + m.size)), e, m))
+             /\ UNCHANGED rxStuck
   /\ nDeliv' = [nDeliv EXCEPT ![e] = @ + 1]
+  /\ UNCHANGED <<nAdv, advAcked>>
+
+\* the adversary: puts any message of its catalogue on its wire, and acknowledges the victim's segments
+AdvSend(a, m) ==
+  /\ Idle /\ a \in Adv /\ nAdv < MaxAdv
+  /\ nAdv' = nAdv + 1
+  /\ pend' = <<EvWire(a, m)>>
+  /\ UNCHANGED <<ph, txQ, txCur, txAck, txMap, nextId, nSent, rxCur, rxMap, buf, cbuf, segSize, pq, txp, cw,
+                 nDeliv, advAcked, rxStuck, allOk, ovars>>
+
+AdvAck(a) ==
+  LET v == Peer(a) IN
+  /\ Idle /\ a \in Adv /\ advAcked < Len(segs[v])
+  /\ LET sg == segs[v][advAcked + 1] IN pend' = <<EvWire(a, MAck(sg.id, sg.cum, sg.flags))>>
+  /\ advAcked' = advAcked + 1
+  /\ UNCHANGED <<ph, txQ, txCur, txAck, txMap, nextId, nSent, rxCur, rxMap, buf, cbuf, segSize, pq, txp, cw,
+                 nDeliv, nAdv, rxStuck, allOk, ovars>>
 
 \* the peer closed and everything it sent has been read: recv() returns b''
 PeerEof(e) ==
   LET p == Peer(e) IN
   /\ Idle /\ ph[e].open /\ ph[e].started /\ ~ph[p].open /\ nDeliv[e] = Len(wire[p])
   /\ Commit(e, Close(Ev(EndState(e), [a |-> "PeerEof", e |-> e, n |-> "", t |-> 0]), e))
-  /\ UNCHANGED nDeliv
+  /\ UNCHANGED <<nDeliv, nAdv, advAcked, rxStuck>>
 
 \* observer drains the callback's sub-events, one per step
 Drain ==
@@ -296,18 +342,20 @@ Drain ==
        /\ Upd(ev)
        /\ tid' = tid /\ l' = l
   /\ pend' = Tail(pend)
-  /\ UNCHANGED <<ph, txQ, txCur, txAck, txMap, nextId, nSent, rxCur, rxMap, buf, cbuf, segSize, pq, txp, cw, nDeliv>>
+  /\ UNCHANGED <<ph, txQ, txCur, txAck, txMap, nextId, nSent, rxCur, rxMap, buf, cbuf, segSize, pq, txp, cw, nDeliv, nAdv, advAcked, rxStuck>>
 
 Callback ==
   \E e \in Ends :
      \/ Start(e) \/ UserTerminate(e) \/ UserClose(e) \/ UserPop(e) \/ ProcessQueue(e) \/ NetRecv(e) \/ PeerEof(e)
      \/ \E len \in Lens : UserSend(e, len)
      \/ \E q \in Quanta : TxPump(e, q)
+     \/ AdvAck(e)
+     \/ \E m \in AdvMoves : AdvSend(e, m)
 
 Next == Drain \/ Callback
 
 Init ==
-  /\ tid = 0 /\ l = 0 /\ ObsInit
+  /\ tid = 0 /\ l = 0 /\ ObsInitWith(SetToSortedSeqS(Ends \ Adv))
   /\ ph = [e \in Ends |-> [open |-> TRUE, started |-> FALSE, inConn |-> FALSE, inSess |-> FALSE, inTerm |-> FALSE,
                             gotTerm |-> FALSE]]
   /\ txQ = [e \in Ends |-> <<>>] /\ txCur = [e \in Ends |-> NoCur]
@@ -317,7 +365,7 @@ Init ==
   /\ buf = [e \in Ends |-> <<>>] /\ cbuf = [e \in Ends |-> <<>>]
   /\ segSize = [e \in Ends |-> 0]
   /\ pq = [e \in Ends |-> FALSE] /\ txp = [e \in Ends |-> FALSE] /\ cw = [e \in Ends |-> FALSE]
-  /\ nDeliv = [e \in Ends |-> 0]
+  /\ nDeliv = [e \in Ends |-> 0] /\ nAdv = 0 /\ advAcked = 0 /\ rxStuck = [e \in Ends |-> FALSE]
   /\ pend = <<>> /\ allOk = TRUE
 
 Spec == Init /\ [][Next]_vars
